@@ -21,6 +21,11 @@ Hypothesis draws - and every list it shrinks to - is a valid program.
     ["empty", how, name, density]                 the empty formula: how = "''" formula(''), "()" formula(),
                                                   "None" formula(None), "Formula()", "[]" formula([]), "{}" formula({})
 
+    ["retable", k]                                the masses of the private table (every element and isotope) are
+                                                  rescaled by FACTORS[k] (the documented customisation el._mass = ...);
+                                                  the pristine masses are restored when the history ends
+A count or multiplier written {"F": [p, q]} is fractions.Fraction(p, q) (exact=True).
+
 With zeros=True the trees of "str" constructors carry counts written as zero ('0.', '0.0', '.0', '.00': the
 zero spellings of the documented grammar) in any position; the model count is then 0.
 
@@ -67,12 +72,32 @@ def env():
         for sym, m in CUSTOM_MASS.items():
             getattr(T, sym)._mass = m
         _STATE["tables"] = {"public": periodictable.elements, "private": T}
+        pristine = {}
+        for el in T:
+            if el.number == 0:
+                continue
+            pristine[(el.number, 0)] = el._mass
+            for a_ in el.isotopes:
+                pristine[(el.number, a_)] = el[a_]._mass
+        _STATE["pristine"] = pristine
     return _STATE
 
 
 # ----------------------------------------------------------------------
 # strategies
-def number(zero=False, wide=True):
+FACTORS = [0.5, 2.0, 1.25, 0.75, 3.0]
+
+
+def val(c):
+    """The Python number of a JSON count ({"F": [p, q]} is a Fraction)."""
+    return Fraction(c["F"][0], c["F"][1]) if isinstance(c, dict) else c
+
+
+def is_exact(c):
+    return isinstance(c, dict) or (isinstance(c, int) and not isinstance(c, bool))
+
+
+def number(zero=False, wide=True, exact=False):
     """A JSON number usable as a count or multiplier: small and large integers,
     six-digit decimals m*10**e and full-mantissa floats in [1e-6, 1e6]."""
     alts = [st.integers(2, 12), st.integers(1, 9999),
@@ -82,6 +107,8 @@ def number(zero=False, wide=True):
         alts.append(st.floats(1e-6, 1e6, allow_nan=False, allow_infinity=False))
     if zero:
         alts.append(st.sampled_from([0, 0.0, 1, 1.0]))
+    if exact:
+        alts.append(st.tuples(st.integers(1, 40), st.sampled_from([3, 7, 9, 6, 11, 2])).map(lambda t: {"F": [t[0], t[1]]}))
     return st.one_of(*alts)
 
 
@@ -146,7 +173,9 @@ def zero_counts(pool, tree):
     return st.tuples(tree, picks).map(lambda t: _with_zeros(pool, t[0], t[1]))
 
 
-def constructor(pool, count=None, tree=None, tables=False, zeros=False, empties=False):
+def constructor(pool, count=None, tree=None, tables=False, zeros=False, empties=False, exact=False):
+    if exact and count is None:
+        count = number(exact=True)
     if zeros:
         tree = zero_counts(pool, tree if tree is not None else fa.compound(pool, depth=2, max_groups=3, max_atoms=3))
     base = _constructor(pool, count, tree)
@@ -171,7 +200,9 @@ def _constructor(pool, count=None, tree=None):
     )
 
 
-def operator(mult=None, tables=False):
+def operator(mult=None, tables=False, retable=False, exact=False):
+    if exact and mult is None:
+        mult = number(zero=True, exact=True)
     if not tables:
         return _operator(mult)
     # weighted choice (one_of drops repeated branches): a drawn kind selects the strategy
@@ -186,6 +217,9 @@ def operator(mult=None, tables=False):
         "iadd": st.tuples(st.just("iadd"), idx, idx).map(list),
     }
     kinds = ["chtable"] * 2 + ["again"] + ["copy"] * 2 + ["add"] * 3 + ["mul"] * 4 + ["iadd"] * 4
+    if retable:
+        alt["retable"] = st.tuples(st.just("retable"), st.integers(0, 4)).map(list)
+        kinds = kinds + ["retable"] * 2
     return st.sampled_from(kinds).flatmap(lambda k: alt[k])
 
 
@@ -208,9 +242,10 @@ def _operator(mult=None):
     )
 
 
-def history(pool, max_steps=30, count=None, mult=None, tree=None, tables=False, zeros=False, empties=False):
-    c = constructor(pool, count, tree, tables, zeros, empties)
-    o = operator(mult, tables)
+def history(pool, max_steps=30, count=None, mult=None, tree=None, tables=False, zeros=False, empties=False,
+            retable=False, exact=False):
+    c = constructor(pool, count, tree, tables, zeros, empties, exact)
+    o = operator(mult, tables, retable, exact)
     step = st.one_of(o, o, o, c)
     rest = max_steps - 3
     tail = st.one_of(st.lists(step, min_size=0, max_size=min(6, rest)),
@@ -237,15 +272,23 @@ def nested_model(pool, node):
     for c, frag in node["p"]:
         part = nested_model(pool, frag) if isinstance(frag, dict) else {spec_key(pool, frag): Fraction(1)}
         for k, v in part.items():
-            total[k] = total.get(k, 0) + v * Fraction(c)
+            total[k] = total.get(k, 0) + v * Fraction(val(c))
     return total
 
 
 def nested_build(table, node):
     out = []
     for c, frag in node["p"]:
-        out.append((c, nested_build(table, frag) if isinstance(frag, dict) else resolve(table, frag)))
+        out.append((val(c), nested_build(table, frag) if isinstance(frag, dict) else resolve(table, frag)))
     return tuple(out) if node["t"] else out
+
+
+def nested_counts(node):
+    for c, f in node["p"]:
+        yield c
+        if isinstance(f, dict):
+            for x in nested_counts(f):
+                yield x
 
 
 def nested_leaves(node):
@@ -281,10 +324,11 @@ def mag_ok(comp):
 
 
 class Var(object):
-    __slots__ = ("f", "comp", "operand", "origin", "table")
+    __slots__ = ("f", "comp", "operand", "origin", "table", "exact")
 
     def __init__(self, f, comp, origin, table="public"):
         self.table = table        # the table whose atoms the formula holds
+        self.exact = False        # every count and multiplier that went into it is an int or a Fraction
         self.f = f
         self.comp = comp
         self.operand = False      # was an operand of an earlier + or *
@@ -305,6 +349,18 @@ def interpret(ops, observer=None, before=None, mag=(MAG_LO, MAG_HI)):
     flags = {"mul-multi": False, "iadd-after-operand": False, "kinds": [], "classes": set()}
     skipped = 0
     ctor_ops = []
+    state = {"retabled": False}
+    try:
+        return _interpret(E, ops, observer, before, mag, vars_, flags, skipped, ctor_ops, state)
+    finally:
+        if state["retabled"]:
+            T = E["tables"]["private"]
+            for (z, a_), m in E["pristine"].items():
+                (T[z][a_] if a_ else T[z])._mass = m
+
+
+def _interpret(E, ops, observer, before, mag, vars_, flags, skipped, ctor_ops, state):
+    pool, formula = E["pool"], E["formula"]
     for index, op in enumerate(ops):
         kind = op[0]
         which = "public"
@@ -327,7 +383,7 @@ def interpret(ops, observer=None, before=None, mag=(MAG_LO, MAG_HI)):
         st_.index, st_.op, st_.kind = index, op, kind
         st_.new = st_.changed = None
         st_.operands, st_.inputs, st_.flags = [], None, flags
-        if kind in ("copy", "add", "mul", "iadd", "chtable") and not vars_:
+        if kind in ("copy", "add", "mul", "iadd", "chtable", "retable") and not vars_:
             skipped += 1
             continue
         n = len(vars_)
@@ -344,7 +400,7 @@ def interpret(ops, observer=None, before=None, mag=(MAG_LO, MAG_HI)):
                 continue
         if kind == "mul":
             a = vars_[op[2] % n]
-            m = mscale(a.comp, Fraction(op[1]))
+            m = mscale(a.comp, Fraction(val(op[1])))
             if not all(v == 0 or mag[0] <= v <= mag[1] for v in m.values()):
                 skipped += 1
                 continue
@@ -355,6 +411,7 @@ def interpret(ops, observer=None, before=None, mag=(MAG_LO, MAG_HI)):
             kw = {} if which == "public" else {"table": table}
             f = formula(s, name=op[2], **kw) if op[2] is not None else formula(s, **kw)
             v = Var(f, fa.composition(pool, op[1]), "str", which)
+            v.exact = all(c[i] is None or "." not in c[i] for c, i in _count_slots(op[1]))
             if any(c[i] in ZEROS for c, i in _count_slots(op[1])):
                 flags["kinds"].append("zero-count-in-string")
             for a_, _ in fa.atoms_of(op[1]["g"]):
@@ -379,9 +436,11 @@ def interpret(ops, observer=None, before=None, mag=(MAG_LO, MAG_HI)):
             else:
                 f = formula({}, **kw)
             v = Var(f, {}, "empty", which)
+            v.exact = True
         elif kind == "atom":
             f = formula(resolve(table, op[1]))
             v = Var(f, {spec_key(pool, op[1]): Fraction(1)}, "atom", which)
+            v.exact = True
             flags["classes"].add(spec_class(op[1]))
         elif kind == "dict":
             d, comp = {}, {}
@@ -389,8 +448,8 @@ def interpret(ops, observer=None, before=None, mag=(MAG_LO, MAG_HI)):
                 k = spec_key(pool, spec)
                 if k in comp:
                     continue            # D and H[2] are one atom: keep the first
-                comp[k] = Fraction(c)
-                d[resolve(table, spec)] = c
+                comp[k] = Fraction(val(c))
+                d[resolve(table, spec)] = val(c)
                 flags["classes"].add(spec_class(spec))
             kw = {}
             if op[2] is not None:
@@ -401,12 +460,14 @@ def interpret(ops, observer=None, before=None, mag=(MAG_LO, MAG_HI)):
             f = formula(d, **kw)
             st_.inputs = ("dict", d, keep)
             v = Var(f, comp, "dict", which)
+            v.exact = all(is_exact(c) for _, c in op[1])
         elif kind == "seq":
             seq = nested_build(table, op[1])
             keep = nested_build(table, op[1])
             f = formula(seq, name=op[2]) if op[2] is not None else formula(seq)
             st_.inputs = ("seq", seq, keep)
             v = Var(f, nested_model(pool, op[1]), "seq", which)
+            v.exact = all(is_exact(c) for c in nested_counts(op[1]))
             for s_ in nested_specs(op[1]):
                 flags["classes"].add(spec_class(s_))
         elif kind == "copy":
@@ -419,19 +480,22 @@ def interpret(ops, observer=None, before=None, mag=(MAG_LO, MAG_HI)):
             f = formula(a.f, **kw)
             st_.operands = [op[1] % n]
             v = Var(f, dict(a.comp), "copy", a.table)
+            v.exact = a.exact
         elif kind == "add":
             f = a.f + b.f
             st_.operands = [ia, ib]
             a.operand = b.operand = True
             v = Var(f, madd(a.comp, b.comp), "add", a.table)
+            v.exact = a.exact and b.exact
         elif kind == "mul":
             a = vars_[op[2] % n]
-            if op[1] not in (0, 1) and len(a.f.structure) > 1:
+            if val(op[1]) not in (0, 1) and len(a.f.structure) > 1:
                 flags["mul-multi"] = True
-            f = op[1] * a.f
+            f = val(op[1]) * a.f
             st_.operands = [op[2] % n]
             a.operand = True
-            v = Var(f, mscale(a.comp, Fraction(op[1])), "mul", a.table)
+            v = Var(f, mscale(a.comp, Fraction(val(op[1]))), "mul", a.table)
+            v.exact = a.exact and is_exact(op[1])
         elif kind == "iadd":
             i, j = ia, ib
             if a.operand:
@@ -441,9 +505,17 @@ def interpret(ops, observer=None, before=None, mag=(MAG_LO, MAG_HI)):
             st_.operands = [j]
             st_.changed = i
             newcomp = madd(a.comp, b.comp)
+            a.exact = a.exact and b.exact
             a.comp = newcomp
             st_.inputs = ("iadd", obj, a.f)
             a.f = obj
+            v = None
+        elif kind == "retable":
+            factor = FACTORS[op[1] % len(FACTORS)]
+            T = E["tables"]["private"]
+            for (z, a_), m in E["pristine"].items():
+                (T[z][a_] if a_ else T[z])._mass = m * factor
+            state["retabled"] = True
             v = None
         elif kind == "chtable":
             i = op[1] % n
